@@ -866,6 +866,11 @@ class FnTr:
         init = [init_n] if init_n else []
         local = self.declared_in(body)
         carried = [v for v in self.assigned(body + inc) if v not in local]
+        # canonical order (receiver first, then declaration order) so that reordering statements keeps the signature
+        order = {"self": -1}
+        for i, (vid, (n, t)) in enumerate(self.vars.items()):
+            order[n] = i
+        carried.sort(key=lambda v: order[v])
         # one iteration: body, increment, recursive call
         inc_text = self.seq(inc, CALLMARK, {})
         body_text = self.seq(body, inc_text, {"brk": k, "cont": inc_text})
